@@ -31,10 +31,17 @@ D7 == << N("OP", 0, "", "query"), N("S", 1, "F", ""), [N("FRAG", 0, "F", "") EXC
 \* D8 (invalid, another rule): { s(zz: 1) }
 D8 == << N("OP", 0, "", "query"), [N("F", 1, "s", "") EXCEPT !.args = <<[name |-> "zz", val |-> [t |-> "int", v |-> 1]]>>] >>
 
+\* D9: widening fragment  { a { ... on P { s } } }     D10: { lp { s } }  (items of both implementers)
+D9 == << N("OP", 0, "", "query"), N("F", 1, "a", ""), [N("I", 2, "", "") EXCEPT !.cond = "P"], N("F", 3, "s", "") >>
+D10 == << N("OP", 0, "", "query"), N("F", 1, "lp", ""), N("F", 2, "s", "") >>
+\* D11 (invalid): the same operation name twice   query A { s }  query A { i }
+D11 == << N("OP", 0, "A", "query"), N("F", 1, "s", ""), N("OP", 0, "A", "query"), N("F", 3, "i", "") >>
+
 DocsStd == [ D1 |-> [class |-> "valid", nodes |-> D1], D2 |-> [class |-> "valid", nodes |-> D2],
              D3 |-> [class |-> "invalid", nodes |-> D3], D4 |-> [class |-> "broken", nodes |-> D4],
              D5 |-> [class |-> "valid", nodes |-> D5], D6 |-> [class |-> "valid", nodes |-> D6],
-             D7 |-> [class |-> "invalid", nodes |-> D7], D8 |-> [class |-> "invalid", nodes |-> D8] ]
+             D7 |-> [class |-> "invalid", nodes |-> D7], D8 |-> [class |-> "invalid", nodes |-> D8],
+             D9 |-> [class |-> "valid", nodes |-> D9], D10 |-> [class |-> "valid", nodes |-> D10], D11 |-> [class |-> "invalid", nodes |-> D11] ]
 
 Rq(d, sp, opn, g) == [doc |-> d, spelling |-> sp, opName |-> opn, given |-> g]
 PoolStd == { Rq("D1", "str", "A", <<>>), Rq("D1", "str", "B", <<>>), Rq("D1", "bytes", "A", <<>>), Rq("D1", "str", "", <<>>),
@@ -46,6 +53,9 @@ PoolStd == { Rq("D1", "str", "A", <<>>), Rq("D1", "str", "B", <<>>), Rq("D1", "b
 PoolEnv == PoolStd \cup { Rq("D2", "str", "", [v |-> Bool(TRUE), extra |-> Int(1)]), Rq("D2", "str", "", [v |-> Null]),
                           Rq("D2", "str", "Nope", [v |-> Bool(TRUE)]), Rq("D5", "str", "", <<>>), Rq("D5", "bytes", "X", <<>>),
                           Rq("D3", "bytes", "A", <<>>), Rq("D4", "str", "A", [v |-> Bool(TRUE)]) }
+\* history-sensitive documents: widening fragment then the other implementer; invalid documents of several rules, repeated
+PoolHist == { Rq("D9", "str", "", <<>>), Rq("D10", "str", "", <<>>), Rq("D11", "str", "A", <<>>), Rq("D11", "bytes", "A", <<>>),
+              Rq("D7", "str", "", <<>>), Rq("D3", "str", "", <<>>), Rq("D1", "str", "A", <<>>) }
 PoolSmall == { Rq("D1", "str", "A", <<>>), Rq("D1", "bytes", "B", <<>>), Rq("D2", "str", "", [v |-> Bool(TRUE)]), Rq("D2", "str", "", [v |-> Bool(FALSE)]),
                Rq("D2", "str", "", <<>>), Rq("D3", "str", "", <<>>), Rq("D4", "str", "", <<>>), Rq("D5", "str", "M", <<>>),
                Rq("D6", "str", "", [n |-> Int(3)]), Rq("D6", "str", "", [n |-> Int(4)]), Rq("D7", "str", "", <<>>), Rq("D8", "str", "", <<>>) }
